@@ -195,6 +195,8 @@ def cli_sessions(inputs: list[bytes], work: str, rng: random.Random) -> list[dic
         f.write(b"evil\r\n\r\nGetProcAddress\nexample\n")
     with open(os.path.join(kwdir, "sub", "more.words"), "wb") as f:
         f.write(b"powershell\nIEX\n")
+    with open(os.path.join(kwdir, "mots-cl\u00e9s.words"), "wb") as f:       # a label that is not ASCII
+        f.write(b"echo\nhttp\ncmd\n")
     env = dict(os.environ, PYTHONPATH=SRC, PYTHONIOENCODING="utf-8")
     jobs = []
     for i, data in enumerate(inputs):
@@ -232,7 +234,10 @@ def cli_sessions(inputs: list[bytes], work: str, rng: random.Random) -> list[dic
             err = pr.stderr.read()
             th.join()
             return pr.wait(timeout=300), out, err
-        pr = subprocess.run(cmd, input=data if use_stdin else None, capture_output=True, env=env, timeout=300)
+        e2 = env
+        if mode == ["--json"] and use_kw:
+            e2 = dict(env, PYTHONIOENCODING="ascii")       # JSON output is ASCII by construction: it has to survive an ASCII-only stdout
+        pr = subprocess.run(cmd, input=data if use_stdin else None, capture_output=True, env=e2, timeout=300)
         return pr.returncode, pr.stdout, pr.stderr
 
     with ThreadPoolExecutor(NCPU) as ex:
